@@ -21,7 +21,8 @@ ASSUMPTIONS = ['model.MN (set-based tree model written for this check) is '
                'for trees with more than 12 nodes']
 WATCHDOG = {'quick': 600, 'thorough': 3600}
 LONG_SENTENCES = 3      # floor for the stratum the runner adds (gen.maybe_long)
-MIN = {'quick': {'distinct': 300, 'strata': {'after in-place change': 300},
+MIN = {'quick': {'distinct': 300, 'strata': {'after in-place change': 300,
+                                           'deep copy with nodes added': 200},
                  'hooks': {'trees.children': 1000, 'trees.terminals': 1000,
                            'trees.preorder': 300, 'trees.postorder': 300,
                            'trees.lca': 1000, 'trees.left_sibling': 500,
@@ -303,6 +304,38 @@ def run_tree(ctx, spec, rng, again=True):
         defects, m = model.snapshot(live)
         if mutate_in_place(m, rng):
             evaluate(ctx, spec, live, rng, tag='after in-place change')
+    if again and rng.random() < 0.2:
+        # a deep copy of the tree (how a caller keeps a tree, since the
+        # transformations work in place), the original released, and nodes
+        # created afterwards put into the copy
+        import copy
+        import gc
+        twin = copy.deepcopy(live)
+        del live
+        m = defects = None
+        Cur.root, Cur.by_id = None, {}
+        gc.collect()
+        defects, m = model.snapshot(twin)
+        if defects:
+            Cur.ctx, Cur.spec = ctx, spec
+            _fail('copy-of-tree-ill-formed', 'copy.deepcopy of a well-formed '
+                  'tree: %r' % (defects[:3],))
+            return
+        nodes = m.nodes()
+        for k in range(rng.randint(1, 4)):
+            x = rng.choice(nodes).ref
+            new = T.Tree(T.make_node_data())
+            new.data.update(label='NEU%d' % k, edge='--', head=False)
+            parent = x.parent
+            if parent is not None:
+                parent.children[[c is x for c in parent.children]
+                                .index(True)] = new
+            else:
+                twin = new
+            new.parent = parent
+            new.children = [x]
+            x.parent = new
+        evaluate(ctx, spec, twin, rng, tag='deep copy with nodes added')
 
 
 def evaluate(ctx, spec, live, rng, tag=None):
